@@ -57,7 +57,7 @@ def belongs(priv, pub) -> bool:
         return False
 
 
-STALE = b"left behind by an earlier invocation\n"
+STALE = core.STALE
 
 
 def run_keys(ctx, tr, d, s, k, via):
